@@ -13,7 +13,7 @@ RECORDS = []
 LEMMAS = []      # (name, props, callable -> list of (subname, hyps, goal))
 
 
-def register(file, qualname, inst_name, inst, contract, specs=None, callees=None, props=(), extra_hyps=None, setup=None, lemma_deps=()):
+def register(file, qualname, inst_name, inst, contract, specs=None, callees=None, props=(), extra_hyps=None, setup=None, lemma_deps=(), thorough_only=False):
     """specs: dict or callable returning a fresh dict; extra_hyps: callable(engine) -> list of z3 terms (instantiated L lemmas, axioms);
     setup: callable(engine) run after construction (late-bound spec functions); lemma_deps: names of L lemmas the contract uses as hypotheses"""
     props = tuple(props)
@@ -22,7 +22,7 @@ def register(file, qualname, inst_name, inst, contract, specs=None, callees=None
     heavy = qualname in ("_rolling_max_or_min_1d", "_rolling_sum_or_mean_1d") and not inst_name.startswith(("float,chunked,mask=None,max", "float,chunked,mask=None,sum"))
     if contract.get("frozen") and "C19" not in props and not heavy: props += ("C19",)
     RECORDS.append(dict(file=file, qualname=qualname, inst_name=inst_name, inst=inst, contract=contract, specs=specs, callees=callees or {},
-                        props=props, extra_hyps=extra_hyps, setup=setup, lemma_deps=tuple(lemma_deps)))
+                        props=props, extra_hyps=extra_hyps, setup=setup, lemma_deps=tuple(lemma_deps), thorough_only=thorough_only))
 
 
 def lemma(name, props):
@@ -154,18 +154,19 @@ def _run_lemma(args):
     return {"lemma": name, "props": props, "rows": out}
 
 
-def select(only=None, props=None):
+def select(only=None, props=None, tier="thorough"):
     idxs = []
     for i, r in enumerate(RECORDS):
+        if tier == "quick" and r.get("thorough_only"): continue       # the heaviest instantiations are discharged in the thorough tier only (and by ./check baseline / selftest)
         if props and not (set(props) & set(r["props"])): continue
         if only and not any(x in f"{r['qualname']}[{r['inst_name']}]" for x in only): continue
         idxs.append(i)
     return idxs
 
 
-def run_all(repo, modules, only=None, props=None, timeout=30000, procs=16, both=False, retries=(7, 23), covers=True, lemmas=True):
+def run_all(repo, modules, only=None, props=None, timeout=30000, procs=16, both=False, retries=(7, 23), covers=True, lemmas=True, tier="thorough"):
     for m in modules: importlib.import_module(m)
-    idxs = select(only, props)
+    idxs = select(only, props, tier)
     t0 = time.time()
     ctx = mp.get_context("spawn")
     with ctx.Pool(min(procs, max(1, len(idxs)))) as pool: gens = pool.map(_gen, [(i, repo, modules) for i in idxs], chunksize=1)
